@@ -233,6 +233,20 @@ def r04_3_model_syntaxes(repo: Repo, rep: Report):
     t = src(pm)
     ok = "value = parse_const_value(match.group(4))" in t and "value=value" in t and "full_name = match.group(1).strip()" in t
     rep.check("R04.3", ok, m, pm, "_parse_halmos_var_match: value = parse_const_value(group 4); name = group 1", "model variable must carry the parsed solver value")
+    # ... and nothing rewrites it on the way: the value given to ModelVariable has exactly one binding, the parsed one
+    from hsa.origin import _bindings, origin_text
+
+    mv = [c for c in body_walk(pm) if isinstance(c, ast.Call) and call_name(c) == "ModelVariable"]
+    for c in mv:
+        v = kwarg(c, "value")
+        if v is None:
+            continue
+        names = [n.id for n in ast.walk(v) if isinstance(n, ast.Name)]
+        binds = {n: _bindings(pm).get(n, []) for n in names}
+        rebinding = {n: [k for k, _ in b] for n, b in binds.items() if len(b) != 1 or b[0][0] != "assign"}
+        ot = origin_text(m, pm, v).replace("$", "")
+        ok = not rebinding and ot == "parse_const_value(match.group(4))"
+        rep.check("R04.3", ok, m, c, f"ModelVariable(value={ot[:80]}) rebinding: {rebinding}", "the value reported for an input is exactly the solver's (no masking, truncation or re-interpretation): a counterexample must replay with the printed words")
     _, st_ = repo.fn("solve.PotentialModel.__str__")
     ok = "hexify(v.value)" in src(st_) and "v.full_name" in src(st_)
     rep.check("R04.3", ok, m, st_, "PotentialModel.__str__ prints full_name = hexify(value)", "printed counterexample must show the solver's value")
